@@ -349,7 +349,8 @@ func (jenny RawTypes) formatReferenceDefaults(ref ast.Type, value any) string {
 	}
 
 	obj, ok := jenny.typeFormatter.context.LocateObjectByRef(ref.AsRef())
-	if !ok {
+	if !ok || !obj.Type.IsStruct() {
+		// an object value for something that isn't a struct (alias of a map, ...): like inline maps, no default is rendered
 		return ""
 	}
 
